@@ -3,7 +3,9 @@ import re
 
 # plain alphabet: disjoint from every character that inserted material uses
 # (tag letters i e m b p d v a r s n, '<', '>', '/', tab, newline, '=', '"')
-PLAIN = "ACDFGHJKLNOQSTUVWXYZ cfghjkloqtuwxyz.,;1234567890"
+# (the last five: combining tilde and acute - decomposed accents as in NFD sources -, the Angstrom and Kelvin
+# signs, which canonical normalisation rewrites, and an astral character)
+PLAIN = "ACDFGHJKLNOQSTUVWXYZ cfghjkloqtuwxyz.,;1234567890\u0303\u0301\u212b\u212a\U0001d4d0"
 INS = ["<i>", "</i>", "<b>", "</b>", "<em>", "</em>", "<p>", "</p>", "\t", "\n", "\n\n", "\t\t", "<br/>",
        "<span>", "</span>", "<div>", "</div>"]
 SENT = re.compile(r"«/?\d+»")
@@ -97,12 +99,35 @@ def annotations(spans, style="sentinel"):
     return [((a, b), f'<a id="{i}">', "</a>") for i, (a, b) in enumerate(spans)]
 
 
+_LINK_ID = [1000]
+
+
+def link_annotations(spans):
+    """The usual shape of link annotations: one closing string shared by all of them, opening strings
+    that are never the same twice in this process (so a string left over from an earlier annotation or an
+    earlier call is not one of the strings passed to this call)."""
+    out = []
+    for a, b in spans:
+        _LINK_ID[0] += 1
+        out.append(((a, b), f"«{_LINK_ID[0]}»", "«/»"))
+    return out
+
+
 def strip_sentinels(s):
     return SENT.sub("", s)
 
 
+def strip_passed(s, anns):
+    """Delete exactly the before/after strings that were passed to the call."""
+    for _, before, after in anns:
+        s = s.replace(before, "")
+    for after in {a for _, _, a in anns}:
+        s = s.replace(after, "")
+    return s
+
+
 # ---------------------------------------------------------------- trees (C11)
-TREE_TXT = "ACDFGHJKLNOQSTUWYZ346890.,;"      # disjoint from every character used in tags and attributes (no blank: attributes contain one)
+TREE_TXT = "ACDFGHJKLNOQSTUWYZ346890.,;\u0303\u0301\u212b"      # disjoint from every character used in tags and attributes (no blank: attributes contain one)
 TREE_TAGS = ["i", "em", "b", "p", "div", "span", "h2", "sup", "page-number", "u"]
 TREE_ATTRS = ["", "", "", ' class="x"', ' id="k7"', " data-v='1'"]
 
